@@ -250,6 +250,8 @@ def model_monitor(lines, nthreads, finished_destroy):
                 p = pending.pop(th); retired[p] = retired.get(p, 0) + 1
         elif name == "dispose":
             p = int(args[0])
+            if th == nthreads:
+                live.clear()      # destruction of the singleton: every client thread has ended, no guard is alive
             disposed[p] = disposed.get(p, 0) + 1
             if disposed[p] > 1:
                 bad.append("model: object %d disposed %d times" % (p, disposed[p]))
